@@ -18,6 +18,7 @@ The contracts are generated per table (specs/C19/enumtab.h holds the fixed part)
 """
 import os
 import re
+import threading
 
 import astload
 from astload import ExtractionError
@@ -33,16 +34,21 @@ def _gen_dir():
     return d
 
 
+_write_lock = threading.Lock()
+
+
 def _write(path, text):
-    try:
-        if open(path).read() == text:
-            return
-    except OSError:
-        pass
-    tmp = f'{path}.{os.getpid()}'
-    with open(tmp, 'w') as f:
-        f.write(text)
-    os.replace(tmp, path)
+    """(re)write a generated file atomically; the targets' worker threads ask for the same file concurrently"""
+    with _write_lock:
+        try:
+            if open(path).read() == text:
+                return
+        except OSError:
+            pass
+        tmp = f'{path}.{os.getpid()}.{threading.get_ident()}'
+        with open(tmp, 'w') as f:
+            f.write(text)
+        os.replace(tmp, path)
 
 
 def enum_headers():
